@@ -61,6 +61,108 @@ fn main() {
         .build_transport(false)
         .out_dir(&out)
         .compile(&services);
+    id_fixture::generate(&out);
     println!("cargo:rerun-if-changed=build.rs");
     println!("cargo:rerun-if-changed=/repo/tonic-build/src");
+}
+
+/// C10 (added): services whose Rust type name (`Service::name()`, what prost-build renders in
+/// UpperCamelCase) is NOT their proto identifier (`Service::identifier()`), generated through
+/// `tonic_build::CodeGenBuilder::{generate_server, generate_client}` with our own implementations
+/// of the `tonic_build::Service` / `tonic_build::Method` traits - tonic_build::manual cannot
+/// express this (its name() == identifier()).  One file `id_<k>.rs` per entry; the table is
+/// mirrored (by hand) in lib.rs `ID_FIXTURE`.
+mod id_fixture {
+    use proc_macro2::TokenStream;
+
+    pub struct M {
+        pub name: &'static str,
+        pub ident: &'static str,
+        pub cs: bool,
+        pub ss: bool,
+    }
+    pub struct S {
+        pub name: &'static str,
+        pub package: &'static str,
+        pub ident: &'static str,
+        pub emit_package: bool,
+        pub methods: Vec<M>,
+    }
+    impl tonic_build::Method for M {
+        type Comment = String;
+        fn name(&self) -> &str {
+            self.name
+        }
+        fn identifier(&self) -> &str {
+            self.ident
+        }
+        fn codec_path(&self) -> &str {
+            "crate::RawCodec"
+        }
+        fn client_streaming(&self) -> bool {
+            self.cs
+        }
+        fn server_streaming(&self) -> bool {
+            self.ss
+        }
+        fn comment(&self) -> &[String] {
+            &[]
+        }
+        fn request_response_name(&self, _proto_path: &str, _wkt: bool) -> (TokenStream, TokenStream) {
+            ("crate::Msg".parse().unwrap(), "crate::Msg".parse().unwrap())
+        }
+    }
+    impl tonic_build::Service for S {
+        type Comment = String;
+        type Method = M;
+        fn name(&self) -> &str {
+            self.name
+        }
+        fn package(&self) -> &str {
+            self.package
+        }
+        fn identifier(&self) -> &str {
+            self.ident
+        }
+        fn methods(&self) -> &[M] {
+            &self.methods
+        }
+        fn comment(&self) -> &[String] {
+            &[]
+        }
+    }
+    fn m(name: &'static str, ident: &'static str, cs: bool, ss: bool) -> M {
+        M { name, ident, cs, ss }
+    }
+    pub fn services() -> Vec<S> {
+        vec![
+            // 0: acronym: proto `service HTTPEcho` in package pkg -> Rust HttpEcho
+            S { name: "HttpEcho", package: "pkg", ident: "HTTPEcho", emit_package: true,
+                methods: vec![m("ping", "Ping", false, false), m("get_url", "GetURL", false, false), m("stream_v2", "Stream_V2", false, true)] },
+            // 1: underscore: `service Echo_V2` -> EchoV2; a lower-case method identifier
+            S { name: "EchoV2", package: "pkg", ident: "Echo_V2", emit_package: true,
+                methods: vec![m("echo", "echo", false, false), m("echo_all", "EchoAll", true, true)] },
+            // 2: lower-case, no package: `service greeter` -> Greeter
+            S { name: "Greeter", package: "", ident: "greeter", emit_package: true,
+                methods: vec![m("say_hello", "SayHello", false, false), m("say_hello_again", "sayHelloAgain", true, false)] },
+            // 3: emit_package(false): the package must NOT appear in NAME, arms and client paths
+            S { name: "HttpEcho", package: "hidden.pkg", ident: "HTTPEcho", emit_package: false,
+                methods: vec![m("ping", "Ping", false, false)] },
+            // 4: canonical name whose identifier IS the Rust spelling of entry 0
+            S { name: "HttpEcho", package: "pkg", ident: "HttpEcho", emit_package: true,
+                methods: vec![m("ping", "Ping", false, false), m("only_here", "OnlyHere", false, false)] },
+            // 5: emit_package(false), identifier = the Rust spelling of entry 2
+            S { name: "Greeter", package: "hidden.pkg", ident: "Greeter", emit_package: false,
+                methods: vec![m("say_hello", "SayHello", false, false)] },
+        ]
+    }
+    pub fn generate(out: &std::path::Path) {
+        for (k, s) in services().iter().enumerate() {
+            let mut b = tonic_build::CodeGenBuilder::new();
+            b.emit_package(s.emit_package).build_transport(false);
+            let client = b.generate_client(s, "");
+            let server = b.generate_server(s, "");
+            std::fs::write(out.join(format!("id_{}.rs", k)), format!("{}\n{}\n", client, server)).unwrap();
+        }
+    }
 }
